@@ -5,7 +5,7 @@ defect1: an Index / Flatten / nested query in the middle (or at the root) of an 
 are accepted; the chain below the Index / Flatten / quantifier is thrown away and the remaining attribute is read from
 the unjoined table of the declared type (a cartesian product), i.e. "some Animal is called rex".
 
-Run:  cd /tmp/hunt2/C07 && PYTHONPATH=/tmp/hunt2/C07/src:/tmp/hunt2/C07 /venv/bin/python HUNT/defect1.py
+Run:  cd /tmp/hunt2/C07 && PYTHONPATH=/repo/src:/tmp/hunt2/C07 /venv/bin/python HUNT/defect1.py
 Exits non-zero when the translated statement and the in-memory evaluation disagree (the defect is present).
 """
 import importlib, os, sys, tempfile, warnings
